@@ -192,12 +192,18 @@ theorem buildReader_absent (binary : Bool) (props : List (Bytes × SType)) (r : 
       exact fallback_none _ k (hk3 h4.2) hoff _
     · rfl
 
-/-! ## one default reader on the written header: built exactly as predicted -/
+/-! ## one default reader on the written header: built exactly as predicted (binary offsets / ASCII columns) -/
 
-/-- the predicted reader with its location: component `k` at the byte offset of the header position of its name -/
-def expectBuilt (ws : List WProp) (r : RProp) : Option Built :=
+/-- the decoding type a built reader carries: the writer's type — except for the ASCII scalar reader, which never
+learns it (reader_vector1.go:38-57) -/
+def tyOf (binary : Bool) (r : RProp) (t : SType) : Option SType :=
+  if binary || decide (r.names.length ≠ 1) then some t else none
+
+/-- the predicted reader with its location: component `k` at the byte offset (binary) / column (ASCII) of the header
+position of its name -/
+def expectBuilt (binary : Bool) (ws : List WProp) (r : RProp) : Option Built :=
   (expectNames ws r).map (fun p =>
-    ⟨r.attr, p.1, (p.1.map (posOf (wsProps ws))).map (locOf true (wsProps ws)), some p.2⟩)
+    ⟨r.attr, p.1, (p.1.map (posOf (wsProps ws))).map (locOf binary (wsProps ws)), tyOf binary r p.2⟩)
 
 theorem buildV1_go_none (binary : Bool) (attr name : Bytes) : ∀ (props : List (Bytes × SType)) (pos : Nat),
     (∀ p ∈ props, p.1 ≠ name) → buildV1.go binary attr name props pos = none := by
@@ -241,9 +247,10 @@ theorem guard_absent (ws : List WProp) (r : RProp) (hone : r.names.length ≠ 1)
 /-- THE CLAIM OF ONE DEFAULT READER on the header the writers `ws` produce, inside the guard: `PropertyReader.build*`
 builds exactly the predicted reader — all names of one writer, or the first three of an IgnorableW group whose fourth
 name is absent, the scalar property, or nothing — located at the header positions of its names, with the writer's type -/
-theorem buildReader_expect (ws : List WProp) (hnd : (wsNames ws).Nodup) (r : RProp) (h1 : 1 ≤ r.names.length)
-    (hrn : r.names.Nodup) (hign : r.ignorableW = true → r.names.length = 4) (hg : readerGuard ws r = true) :
-    buildReader true (wsProps ws) r = expectBuilt ws r := by
+theorem buildReader_expect (binary : Bool) (ws : List WProp) (hnd : (wsNames ws).Nodup) (r : RProp)
+    (h1 : 1 ≤ r.names.length) (hrn : r.names.Nodup) (hign : r.ignorableW = true → r.names.length = 4)
+    (hg : readerGuard ws r = true) :
+    buildReader binary (wsProps ws) r = expectBuilt binary ws r := by
   have hpn : ((wsProps ws).map (·.1)).Nodup := by rw [wsProps_names]; exact hnd
   by_cases hone : r.names.length = 1
   · obtain ⟨attr, names, ign⟩ := r
@@ -257,26 +264,27 @@ theorem buildReader_expect (ws : List WProp) (hnd : (wsNames ws).Nodup) (r : RPr
           obtain ⟨w, hw, hn⟩ := (mem_wsNames ws p.1).mp (props_name_mem ws p hp)
           have := List.find?_eq_none.mp hf w hw
           simp [← e, hn] at this
-        simp [buildV1, buildV1_go_none true attr n _ 0 habs]
+        simp [buildV1, buildV1_go_none binary attr n _ 0 habs]
       | some w =>
         have hw := List.mem_of_find?_eq_some hf
         have hp := List.find?_some hf
         simp only [List.all_cons, List.all_nil, Bool.and_true, List.contains_eq_mem, decide_eq_true_eq] at hp
         obtain ⟨hi, hpe⟩ := posOf_spec _ hpn n w.ty ((mem_wsProps ws _ _).mpr ⟨w, hw, hp, rfl⟩)
-        rw [buildV1_spec true attr n (wsProps ws) (posOf (wsProps ws) n) hi (by rw [hpe])
+        rw [buildV1_spec binary attr n (wsProps ws) (posOf (wsProps ws) n) hi (by rw [hpe])
           (fun j hj => posOf_first _ _ j hj (by omega))]
-        simp [hpe]
+        cases binary <;> simp [hpe, tyOf]
   · have hlen : 2 ≤ r.names.length := by omega
+    have hty : ∀ t, tyOf binary r t = some t := by intro t; simp [tyOf, hone]
     cases hf : ws.find? (fun w => w.names == r.names) with
     | some w =>
       have hw := List.mem_of_find?_eq_some hf
       have hwn : w.names = r.names := by simpa using List.find?_some hf
-      have := buildReader_all true (wsProps ws) r hlen hrn hpn w.ty (r.names.map (posOf (wsProps ws))) (by simp)
+      have := buildReader_all binary (wsProps ws) r hlen hrn hpn w.ty (r.names.map (posOf (wsProps ws))) (by simp)
         (fun k hk => by
           obtain ⟨hi, hpe⟩ := writer_positions ws hnd w hw r.names (by rw [hwn]; exact fun n h => h) k hk
           exact ⟨by simpa using hi, by simpa using hpe⟩)
       rw [this]
-      simp [expectBuilt, expectNames, hone, hf]
+      simp [expectBuilt, expectNames, hone, hf, hty]
     | none =>
       by_cases hc : (r.ignorableW && !(wsNames ws).contains (r.names.getD 3 [])) = true
       · have hc' := hc
@@ -287,7 +295,7 @@ theorem buildReader_expect (ws : List WProp) (hnd : (wsNames ws).Nodup) (r : RPr
           have hw := List.mem_of_find?_eq_some hf3
           have hwn : w.names = r.names.take 3 := by simpa using List.find?_some hf3
           have hsub : ∀ n ∈ r.names.take 3, n ∈ w.names := by rw [hwn]; exact fun n h => h
-          have := buildReader_fallback true (wsProps ws) r h4 hc'.1 hrn hpn w.ty ((r.names.take 3).map (posOf (wsProps ws)))
+          have := buildReader_fallback binary (wsProps ws) r h4 hc'.1 hrn hpn w.ty ((r.names.take 3).map (posOf (wsProps ws)))
             (by simp [h4])
             (fun k hk => by
               obtain ⟨hi, hpe⟩ := writer_positions ws hnd w hw (r.names.take 3) hsub k (by simp [h4]; omega)
@@ -300,23 +308,27 @@ theorem buildReader_expect (ws : List WProp) (hnd : (wsNames ws).Nodup) (r : RPr
                 simp [List.getD_eq_getElem?_getD, List.getElem?_eq_getElem (show 3 < r.names.length by omega)]
               rw [this, ← e]; exact props_name_mem ws p hp)
           rw [this]
-          simp only [expectBuilt, expectNames, hone, if_false, hf, hc, if_true, hf3, Option.map_some]
+          simp only [expectBuilt, expectNames, hone, if_false, hf, hc, if_true, hf3, Option.map_some, hty]
         | none =>
           have hex : expectNames ws r = none := by
             simp only [expectNames, hone, if_false, hf, hc, if_true, hf3, Option.map_none]
           obtain ⟨k, hk, hk3, habs⟩ := guard_absent ws r hone hg hex
-          rw [buildReader_absent true _ r hlen k hk hk3 habs]
+          rw [buildReader_absent binary _ r hlen k hk hk3 habs]
           simp [expectBuilt, hex]
       · have hex : expectNames ws r = none := by
           simp only [expectNames, hone, if_false, hf, hc]; rfl
         obtain ⟨k, hk, hk3, habs⟩ := guard_absent ws r hone hg hex
-        rw [buildReader_absent true _ r hlen k hk hk3 habs]
+        rw [buildReader_absent binary _ r hlen k hk hk3 habs]
         simp [expectBuilt, hex]
 
 /-! ## the whole reader list -/
 
 theorem defaultReaders_shape : ∀ r ∈ defaultReaders,
     1 ≤ r.names.length ∧ r.names.Nodup ∧ (r.ignorableW = true → r.names.length = 4) := by decide
+
+/-- the name of a scalar default reader is not a component of a vector default reader -/
+theorem defaultReaders_scalar_apart : ∀ r ∈ defaultReaders, ∀ r' ∈ defaultReaders, r.names.length = 1 →
+    r'.names.length ≠ 1 → ∀ n ∈ r.names, n ∉ r'.names := by decide
 
 theorem claimGuard_parts (ws : List WProp) (hg : claimGuard ws = true) :
     (∀ r ∈ defaultReaders, readerGuard ws r = true) ∧ (expectKeys ws).Nodup ∧
@@ -338,12 +350,12 @@ theorem filterMap_congr' {β γ : Type} (f g : β → Option γ) : ∀ (l : List
     simp only [List.filterMap_cons, h x (by simp), ih (fun y hy => h y (by simp [hy]))]
 
 /-- the default readers built on the written header are exactly the predicted ones, in reader order -/
-theorem built_default (ws : List WProp) (hnd : (wsNames ws).Nodup) (hg : claimGuard ws = true) :
-    defaultReaders.filterMap (buildReader true (wsProps ws)) = defaultReaders.filterMap (expectBuilt ws) := by
+theorem built_default (binary : Bool) (ws : List WProp) (hnd : (wsNames ws).Nodup) (hg : claimGuard ws = true) :
+    defaultReaders.filterMap (buildReader binary (wsProps ws)) = defaultReaders.filterMap (expectBuilt binary ws) := by
   apply filterMap_congr'
   intro r hr
   obtain ⟨a, b, c⟩ := defaultReaders_shape r hr
-  exact buildReader_expect ws hnd r a b c ((claimGuard_parts ws hg).1 r hr)
+  exact buildReader_expect binary ws hnd r a b c ((claimGuard_parts ws hg).1 r hr)
 
 /-- what a prediction is made of: names of ONE writer, its type; all the reader's names or the first three -/
 theorem expectNames_some (ws : List WProp) (r : RProp) (ns : List Bytes) (t : SType)
@@ -371,14 +383,17 @@ theorem expectNames_some (ws : List WProp) (r : RProp) (ns : List Bytes) (t : ST
         exact ⟨w, List.mem_of_find?_eq_some hf, rfl, by rw [hwn]; exact fun n h => h, .inr ⟨hc.1, rfl⟩⟩
       · simp at h
 
-/-- a reader that decodes, with the type of ONE writer, (some of) that writer's properties where they sit in the header -/
-def Good (ws : List WProp) (b : Built) : Prop :=
+/-- a reader that decodes, with the type of ONE writer, (some of) that writer's properties where they sit in the header;
+the ASCII scalar reader carries no type and then sits on a property that is not `uchar` -/
+def Good (binary : Bool) (ws : List WProp) (b : Built) : Prop :=
   ∃ w ∈ ws, (∀ n ∈ b.names, n ∈ w.names) ∧
-    b.offs = (b.names.map (posOf (wsProps ws))).map (locOf true (wsProps ws)) ∧ b.ty = some w.ty
+    b.offs = (b.names.map (posOf (wsProps ws))).map (locOf binary (wsProps ws)) ∧
+    (b.ty = some w.ty ∨ (binary = false ∧ b.ty = none ∧ w.ty ≠ .uchar))
 
-theorem located_of_good (ws : List WProp) (hnd : (wsNames ws).Nodup) (b : Built) (h : Good ws b) :
+theorem located_of_good (ws : List WProp) (hnd : (wsNames ws).Nodup) (b : Built) (h : Good true ws b) :
     LocatedNamed (headerProps ws) b (b.names.map (posOf (headerProps ws))) := by
   obtain ⟨w, hw, hsub, hoffs, hty⟩ := h
+  have hty : b.ty = some w.ty := by rcases hty with h | ⟨h, _⟩; exact h; simp at h
   rw [← wsProps_eq]
   refine ⟨⟨⟨w.ty, hty, ?_⟩, ?_⟩, by simp, ?_⟩
   · intro i hi
@@ -392,55 +407,117 @@ theorem located_of_good (ws : List WProp) (hnd : (wsNames ws).Nodup) (b : Built)
     obtain ⟨h1, h2⟩ := writer_positions ws hnd w hw b.names hsub k hk'
     simp [List.getElem?_eq_getElem h1, h2]
 
-theorem expectBuilt_good (ws : List WProp) (r : RProp) (b : Built) (h : expectBuilt ws r = some b) :
-    Good ws b ∧ b.attr = r.attr ∧ (b.names = r.names ∨ (r.ignorableW = true ∧ b.names = r.names.take 3)) ∧
-      expectNames ws r = some (b.names, (b.ty.getD .float)) := by
+/-- inside the ASCII guard, a `uchar` writer's names are claimed by a built vector reader -/
+theorem uchar_claimed (binary : Bool) (ws : List WProp) (hA : asciiGuard ws = true) (w : WProp) (hw : w ∈ ws)
+    (hu : w.ty = .uchar) :
+    ∃ r ∈ defaultReaders, r.names.length ≠ 1 ∧ ∃ d, expectBuilt binary ws r = some d ∧ d.names = w.names := by
+  simp only [asciiGuard, List.all_eq_true, Bool.or_eq_true, bne_iff_ne, List.any_eq_true, Bool.and_eq_true,
+    decide_eq_true_eq, beq_iff_eq] at hA
+  rcases hA w hw with h | ⟨r, hr, hone, hex⟩
+  · exact absurd hu h
+  · refine ⟨r, hr, hone, ?_⟩
+    cases he : expectNames ws r with
+    | none => simp [he] at hex
+    | some p =>
+      simp only [he, Option.map_some, Option.some.injEq] at hex
+      exact ⟨_, by simp only [expectBuilt, he, Option.map_some]; rfl, hex⟩
+
+theorem expectBuilt_good (binary : Bool) (ws : List WProp)
+    (hA : binary = false → asciiGuard ws = true) (r : RProp) (hr : r ∈ defaultReaders) (b : Built)
+    (h : expectBuilt binary ws r = some b) :
+    Good binary ws b ∧ b.attr = r.attr ∧ (b.names = r.names ∨ (r.ignorableW = true ∧ b.names = r.names.take 3)) ∧
+      (expectNames ws r).isSome = true := by
   simp only [expectBuilt, Option.map_eq_some_iff] at h
   obtain ⟨⟨ns, t⟩, hex, rfl⟩ := h
   obtain ⟨w, hw, rfl, hsub, hor⟩ := expectNames_some ws r ns _ hex
-  exact ⟨⟨w, hw, hsub, rfl, rfl⟩, rfl, hor, by simpa using hex⟩
+  refine ⟨⟨w, hw, hsub, rfl, ?_⟩, rfl, hor, by simp [hex]⟩
+  by_cases hb : (binary || decide (r.names.length ≠ 1)) = true
+  · left; simp only [tyOf, hb, if_true]
+  · right
+    simp only [Bool.or_eq_true, decide_eq_true_eq, not_or, Bool.not_eq_true, Decidable.not_not] at hb
+    refine ⟨hb.1, by simp [tyOf, hb.1, hb.2], ?_⟩
+    intro hu
+    obtain ⟨r', hr', hone', d, hd, hdn⟩ := uchar_claimed binary ws (hA hb.1) w hw hu
+    obtain ⟨s1, _, _⟩ := defaultReaders_shape r hr
+    -- the scalar reader's name would be a component of the vector reader r'
+    have hns : ns = r.names := by
+      rcases hor with h | ⟨hi, _⟩
+      · exact h
+      · have := (defaultReaders_shape r hr).2.2 hi; omega
+    have hn0 : r.names[0]'(by omega) ∈ w.names := hsub _ (by rw [hns]; exact List.getElem_mem _)
+    simp only [expectBuilt, Option.map_eq_some_iff] at hd
+    obtain ⟨⟨ns', t'⟩, hex', rfl⟩ := hd
+    simp only at hdn
+    obtain ⟨_, _, _, _, hor'⟩ := expectNames_some ws r' ns' _ hex'
+    have : r.names[0]'(by omega) ∈ r'.names := by
+      rw [← hdn] at hn0
+      rcases hor' with h | ⟨_, h⟩
+      · rw [← h]; exact hn0
+      · rw [h] at hn0; exact List.mem_of_mem_take hn0
+    exact defaultReaders_scalar_apart r hr r' hr' hb.2 hone' _ (List.getElem_mem _) this
 
-/-- the scalar reader of an unclaimed property -/
-theorem buildV1_good (ws : List WProp) (hnd : (wsNames ws).Nodup) (p : Bytes × SType) (hp : p ∈ wsProps ws) (b : Built)
-    (h : buildV1 true (wsProps ws) p.1 p.1 = some b) : Good ws b ∧ b.attr = p.1 ∧ b.names = [p.1] := by
+/-- the scalar reader of a property no built default reader claims -/
+theorem buildV1_good (binary : Bool) (ws : List WProp) (hnd : (wsNames ws).Nodup)
+    (hA : binary = false → asciiGuard ws = true) (p : Bytes × SType) (hp : p ∈ wsProps ws) (b : Built)
+    (h : buildV1 binary (wsProps ws) p.1 p.1 = some b)
+    (hun : ∀ d ∈ defaultReaders.filterMap (expectBuilt binary ws), d.claims p.1 = false) :
+    Good binary ws b ∧ b.attr = p.1 ∧ b.names = [p.1] := by
   obtain ⟨n, t⟩ := p
   obtain ⟨w, hw, hn, rfl⟩ := (mem_wsProps ws n t).mp hp
   obtain ⟨hi, hpe⟩ := posOf_spec _ (by rw [wsProps_names]; exact hnd) n w.ty hp
-  rw [buildV1_spec true n n (wsProps ws) (posOf (wsProps ws) n) hi (by rw [hpe])
+  rw [buildV1_spec binary n n (wsProps ws) (posOf (wsProps ws) n) hi (by rw [hpe])
     (fun j hj => posOf_first _ _ j hj (by omega))] at h
   simp only [Option.some.injEq] at h
   subst h
-  refine ⟨⟨w, hw, by simpa using hn, by simp, by simp [hpe]⟩, rfl, rfl⟩
+  refine ⟨⟨w, hw, by simpa using hn, by simp, ?_⟩, rfl, rfl⟩
+  cases hb : binary with
+  | true => left; simp [hpe]
+  | false =>
+    right
+    refine ⟨rfl, by simp, ?_⟩
+    intro hu
+    obtain ⟨r', hr', _, d, hd, hdn⟩ := uchar_claimed false ws (hA hb) w hw hu
+    have := hun d (List.mem_filterMap.mpr ⟨r', hr', by rw [hb]; exact hd⟩)
+    simp [Built.claims, hdn, hn] at this
 
-theorem foldl_unclaimed_all (props : List (Bytes × SType)) (P : Built → Prop) :
+/-- an invariant of the unclaimed-scalar fold: what holds for the readers given and for every scalar reader added for a
+property none of the GIVEN readers claims, holds for the whole list -/
+theorem foldl_unclaimed_all (binary : Bool) (props : List (Bytes × SType)) (D : List Built) (P : Built → Prop) :
     ∀ (l : List (Bytes × SType)) (acc : List Built),
-      (∀ p ∈ l, ∀ b, buildV1 true props p.1 p.1 = some b → P b) → (∀ b ∈ acc, P b) →
-      ∀ b ∈ l.foldl (unclaimedStep true props) acc, P b := by
+      (∀ p ∈ l, ∀ b, buildV1 binary props p.1 p.1 = some b → (∀ d ∈ D, d.claims p.1 = false) → P b) →
+      (∀ d ∈ D, d ∈ acc) → (∀ b ∈ acc, P b) →
+      ∀ b ∈ l.foldl (unclaimedStep binary props) acc, P b := by
   intro l
   induction l with
-  | nil => intro acc _ h; exact h
+  | nil => intro acc _ _ h; exact h
   | cons p l ih =>
-    intro acc hstep hacc
+    intro acc hstep hsub hacc
     simp only [List.foldl_cons]
-    apply ih _ (fun q hq => hstep q (by simp [hq]))
-    intro b hb
-    simp only [unclaimedStep] at hb
-    split at hb
-    · exact hacc b hb
-    · split at hb
+    have hstep' : ∀ q ∈ l, ∀ b, buildV1 binary props q.1 q.1 = some b → (∀ d ∈ D, d.claims q.1 = false) → P b :=
+      fun q hq => hstep q (by simp [hq])
+    simp only [unclaimedStep]
+    split
+    · exact ih acc hstep' hsub hacc
+    · rename_i hany
+      split
       · rename_i b' hb'
+        apply ih _ hstep' (fun d hd => by simp [hsub d hd])
+        intro b hb
         simp only [List.mem_append, List.mem_singleton] at hb
         rcases hb with hb | rfl
         · exact hacc b hb
-        · exact hstep p (by simp) _ hb'
-      · exact hacc b hb
+        · refine hstep p (by simp) _ hb' ?_
+          intro d hd
+          simp only [List.any_eq_true, not_exists, not_and, Bool.not_eq_true] at hany
+          exact hany d (hsub d hd)
+      · exact ih acc hstep' hsub hacc
 
 /-- keys stay distinct along the unclaimed-scalar fold -/
-theorem foldl_unclaimed_keys (props : List (Bytes × SType)) (D : List Built)
+theorem foldl_unclaimed_keys (binary : Bool) (props : List (Bytes × SType)) (D : List Built)
     (hD : ∀ b ∈ D, ∀ p ∈ props, Built.key b ≠ (1, p.1)) :
     ∀ (l : List (Bytes × SType)) (acc : List Built), (∀ p ∈ l, p ∈ props) →
       (acc.map Built.key).Nodup → (∀ b ∈ acc, b ∈ D ∨ b.names = [b.attr]) →
-      ((l.foldl (unclaimedStep true props) acc).map Built.key).Nodup := by
+      ((l.foldl (unclaimedStep binary props) acc).map Built.key).Nodup := by
   intro l
   induction l with
   | nil => intro acc _ h _; exact h
@@ -457,7 +534,7 @@ theorem foldl_unclaimed_keys (props : List (Bytes × SType)) (D : List Built)
         have hb'n : b'.names = [p.1] ∧ b'.attr = p.1 := by
           simp only [buildV1] at hb'
           by_cases hex : ∃ q ∈ props, q.1 = p.1
-          · obtain ⟨b'', hb'', hn, ha⟩ := buildV1_go_found true p.1 p.1 props 0 hex
+          · obtain ⟨b'', hb'', hn, ha⟩ := buildV1_go_found binary p.1 p.1 props 0 hex
             rw [hb''] at hb'; simp at hb'; subst hb'; exact ⟨hn, ha⟩
           · exact absurd ⟨p, hl p (by simp), rfl⟩ hex
         apply ih _ hl'
@@ -485,14 +562,16 @@ theorem foldl_unclaimed_keys (props : List (Bytes × SType)) (D : List Built)
           · exact .inr (by rw [hb'n.1, hb'n.2])
       · exact ih acc hl' hnd hinv
 
-theorem expect_reserved (ws : List WProp) (r : RProp) (hr : r ∈ defaultReaders) (b : Built)
-    (h : expectBuilt ws r = some b) : ∀ n ∈ b.names, n ∈ reservedNames := by
-  obtain ⟨_, _, hor, _⟩ := expectBuilt_good ws r b h
+theorem expect_reserved (binary : Bool) (ws : List WProp) (r : RProp) (hr : r ∈ defaultReaders) (b : Built)
+    (h : expectBuilt binary ws r = some b) : ∀ n ∈ b.names, n ∈ reservedNames := by
+  simp only [expectBuilt, Option.map_eq_some_iff] at h
+  obtain ⟨⟨ns, t⟩, hex, rfl⟩ := h
+  obtain ⟨_, _, _, _, hor⟩ := expectNames_some ws r ns _ hex
   intro n hn
   have : n ∈ r.names := by
     rcases hor with h | ⟨_, h⟩
     · rw [← h]; exact hn
-    · rw [h] at hn; exact List.mem_of_mem_take hn
+    · simp only [h] at hn; exact List.mem_of_mem_take hn
   exact List.mem_flatten.mpr ⟨r.names, List.mem_map.mpr ⟨r, hr, rfl⟩, this⟩
 
 /-- a writer whose names a default reader recognises is predicted to be claimed, under exactly its names -/
@@ -543,34 +622,37 @@ theorem expect_of_comesBack (ws : List WProp) (hnd : (wsNames ws).Nodup) (hg : c
         exact ⟨w'.ty, by rw [hn]⟩
       · simp at hex
 
-theorem claim_of_guard_ws (ws : List WProp) (hnd : (wsNames ws).Nodup) (hg : claimGuard ws = true) :
-    (∀ b ∈ buildAll true (headerProps ws) defaultReaders true,
-        LocatedNamed (headerProps ws) b (b.names.map (posOf (headerProps ws)))) ∧
-    ((buildAll true (headerProps ws) defaultReaders true).map Built.key).Nodup ∧
+/-- THE CLAIM STAGE on the header of `ws`, inside the guard (binary offsets or ASCII columns): every built reader is
+`Good`, no two share a key, every writer the reader recognises has a reader with its attribute and exactly its names -/
+theorem claim_of_guard_ws (binary : Bool) (ws : List WProp) (hnd : (wsNames ws).Nodup) (hg : claimGuard ws = true)
+    (hA : binary = false → asciiGuard ws = true) :
+    (∀ b ∈ buildAll binary (headerProps ws) defaultReaders true, Good binary ws b) ∧
+    ((buildAll binary (headerProps ws) defaultReaders true).map Built.key).Nodup ∧
     (∀ w ∈ ws, comesBack w = true →
-      ∃ b ∈ buildAll true (headerProps ws) defaultReaders true, b.attr = w.attr ∧ b.names = w.names) := by
+      ∃ b ∈ buildAll binary (headerProps ws) defaultReaders true, b.attr = w.attr ∧ b.names = w.names) := by
   have hpn : ((wsProps ws).map (·.1)).Nodup := by rw [wsProps_names]; exact hnd
-  have hL : buildAll true (headerProps ws) defaultReaders true
-      = (wsProps ws).foldl (unclaimedStep true (wsProps ws)) (defaultReaders.filterMap (expectBuilt ws)) := by
-    simp only [buildAll, if_true, ← wsProps_eq, built_default ws hnd hg, addUnclaimed_eq]
+  have hL : buildAll binary (headerProps ws) defaultReaders true
+      = (wsProps ws).foldl (unclaimedStep binary (wsProps ws)) (defaultReaders.filterMap (expectBuilt binary ws)) := by
+    simp only [buildAll, if_true, ← wsProps_eq, built_default binary ws hnd hg, addUnclaimed_eq]
   rw [hL]
-  have hDgood : ∀ b ∈ defaultReaders.filterMap (expectBuilt ws), ∃ r ∈ defaultReaders, expectBuilt ws r = some b := by
+  have hDgood : ∀ b ∈ defaultReaders.filterMap (expectBuilt binary ws),
+      ∃ r ∈ defaultReaders, expectBuilt binary ws r = some b := by
     intro b hb
     obtain ⟨r, hr, hrb⟩ := List.mem_filterMap.mp hb
     exact ⟨r, hr, hrb⟩
   refine ⟨?_, ?_, ?_⟩
   · intro b hb
-    apply located_of_good ws hnd
-    refine foldl_unclaimed_all (wsProps ws) (Good ws) _ _ ?_ ?_ b hb
-    · intro p hp b' hb'
-      exact (buildV1_good ws hnd p hp b' hb').1
+    refine foldl_unclaimed_all binary (wsProps ws) (defaultReaders.filterMap (expectBuilt binary ws))
+      (Good binary ws) _ _ ?_ (fun d hd => hd) ?_ b hb
+    · intro p hp b' hb' hun
+      exact (buildV1_good binary ws hnd hA p hp b' hb' hun).1
     · intro b' hb'
-      obtain ⟨r, _, hrb⟩ := hDgood b' hb'
-      exact (expectBuilt_good ws r b' hrb).1
-  · apply foldl_unclaimed_keys (wsProps ws) (defaultReaders.filterMap (expectBuilt ws))
+      obtain ⟨r, hr, hrb⟩ := hDgood b' hb'
+      exact (expectBuilt_good binary ws hA r hr b' hrb).1
+  · apply foldl_unclaimed_keys binary (wsProps ws) (defaultReaders.filterMap (expectBuilt binary ws))
     · intro b hb p hp hkey
       obtain ⟨r, hr, hrb⟩ := hDgood b hb
-      obtain ⟨_, hattr, hor, hex⟩ := expectBuilt_good ws r b hrb
+      obtain ⟨_, hattr, hor, hex⟩ := expectBuilt_good binary ws hA r hr b hrb
       obtain ⟨_, _, s3⟩ := defaultReaders_shape r hr
       simp only [Built.key, Prod.mk.injEq] at hkey
       have hone : r.names.length = 1 := by
@@ -578,10 +660,10 @@ theorem claim_of_guard_ws (ws : List WProp) (hnd : (wsNames ws).Nodup) (hg : cla
         · rw [← h]; exact hkey.1
         · have := s3 hi
           rw [h] at hkey; simp [this] at hkey
-      refine (claimGuard_parts ws hg).2.2 r hr hone (by simp [hex]) ?_
+      refine (claimGuard_parts ws hg).2.2 r hr hone hex ?_
       rw [← hattr, hkey.2]; exact props_name_mem ws p hp
     · exact fun p hp => hp
-    · have : (defaultReaders.filterMap (expectBuilt ws)).map Built.key = expectKeys ws := by
+    · have : (defaultReaders.filterMap (expectBuilt binary ws)).map Built.key = expectKeys ws := by
         simp only [List.map_filterMap, expectKeys]
         apply filterMap_congr'
         intro r _
@@ -593,16 +675,17 @@ theorem claim_of_guard_ws (ws : List WProp) (hnd : (wsNames ws).Nodup) (hg : cla
       Bool.not_eq_true'] at hcb
     rcases hcb with ⟨r, hr, hattr, hnames⟩ | ⟨hself, hres⟩
     · obtain ⟨t, hex⟩ := expect_of_comesBack ws hnd hg w hw r hr hnames
-      refine ⟨⟨r.attr, w.names, (w.names.map (posOf (wsProps ws))).map (locOf true (wsProps ws)), some t⟩, ?_, hattr, rfl⟩
+      refine ⟨⟨r.attr, w.names, (w.names.map (posOf (wsProps ws))).map (locOf binary (wsProps ws)), tyOf binary r t⟩,
+        ?_, hattr, rfl⟩
       apply foldl_unclaimed_mono
       exact List.mem_filterMap.mpr ⟨r, hr, by simp [expectBuilt, hex]⟩
     · have hmem : (w.attr, w.ty) ∈ wsProps ws := (mem_wsProps ws _ _).mpr ⟨w, hw, by simp [hself], rfl⟩
       obtain ⟨hi, hpe⟩ := posOf_spec _ hpn _ _ hmem
-      have hadd := addUnclaimed_adds true (wsProps ws) (defaultReaders.filterMap (expectBuilt ws)) hpn _ hi
+      have hadd := addUnclaimed_adds binary (wsProps ws) (defaultReaders.filterMap (expectBuilt binary ws)) hpn _ hi
         (by
           intro b hb
           obtain ⟨r, hr, hrb⟩ := hDgood b hb
-          have hres' := expect_reserved ws r hr b hrb
+          have hres' := expect_reserved binary ws r hr b hrb
           rw [hpe]
           simp only [Built.claims, List.contains_eq_mem, decide_eq_false_iff_not]
           intro hc
@@ -611,7 +694,20 @@ theorem claim_of_guard_ws (ws : List WProp) (hnd : (wsNames ws).Nodup) (hg : cla
       rw [addUnclaimed_eq] at hadd
       exact ⟨_, hadd, by simp [hpe], by simp [hpe, hself]⟩
 
-/-- THE CLAIM STAGE FROM THE HEADER-LEVEL GUARD: for property names that are pairwise distinct (what a successful
+/-- from membership and distinct keys to the indexed form `ClaimOK` / `ClaimOKA` ask for -/
+theorem demanded_of_keys (L : List Built) (f : Built → List Nat) (hk : (L.map Built.key).Nodup) (b : Built) (hb : b ∈ L) :
+    ∃ j, ∃ hj : j < (L.map (fun b => (b, f b))).length, ((L.map (fun b => (b, f b)))[j]).1 = b ∧
+      ∀ j' (hj' : j' < (L.map (fun b => (b, f b))).length), j < j' →
+        Built.key ((L.map (fun b => (b, f b)))[j']).1 ≠ Built.key ((L.map (fun b => (b, f b)))[j]).1 := by
+  obtain ⟨j, hj, hje⟩ := List.getElem_of_mem hb
+  refine ⟨j, by simpa using hj, by simp [hje], ?_⟩
+  intro j' hj' hlt
+  have hj'' : j' < L.length := by simpa using hj'
+  have := (List.pairwise_iff_getElem.mp hk) j j' (by simpa using hj) (by simpa using hj'') hlt
+  simp only [List.getElem_map] at this ⊢
+  exact fun e => this e.symm
+
+/-- THE CLAIM STAGE FROM THE HEADER-LEVEL GUARD (binary): for property names that are pairwise distinct (what a successful
 `MeshWriter.Write` guarantees) and writers inside `claimGuard`, the readers `MeshReader.Read` builds on the written
 header are located where their names are, and every writer the reader recognises has its reader, the only one with that
 key — `ClaimOK`, the hypothesis of the composed round-trip theorems, with the reader list `buildAll` itself as witness -/
@@ -619,21 +715,15 @@ theorem claimOK_of_guard {α : Type} (cfg : WriterCfg) (m : MeshVal α)
     (hnd : (wsNames (selectWriters cfg m)).Nodup) (hg : claimGuard (selectWriters cfg m) = true) :
     ClaimOK cfg m ((buildAll true (headerProps (selectWriters cfg m)) defaultReaders true).map
       (fun b => (b, b.names.map (posOf (headerProps (selectWriters cfg m)))))) := by
-  obtain ⟨h1, h2, h3⟩ := claim_of_guard_ws (selectWriters cfg m) hnd hg
+  obtain ⟨h1, h2, h3⟩ := claim_of_guard_ws true (selectWriters cfg m) hnd hg (by simp)
   refine ⟨by simp [Function.comp_def], ?_, ?_⟩
   · intro p hp
     obtain ⟨b, hb, rfl⟩ := List.mem_map.mp hp
-    exact h1 b hb
+    exact located_of_good _ hnd b (h1 b hb)
   · intro w hw hcb
     obtain ⟨b, hb, ha, hn⟩ := h3 w hw hcb
-    obtain ⟨j, hj, hje⟩ := List.getElem_of_mem hb
-    refine ⟨j, by simpa using hj, by simp [hje, ha], by simp [hje, hn], ?_⟩
-    intro j' hj' hlt
-    have hj'' : j' < (buildAll true (headerProps (selectWriters cfg m)) defaultReaders true).length := by
-      simpa using hj'
-    have := (List.pairwise_iff_getElem.mp h2) j j' (by simpa using hj) (by simpa using hj'') hlt
-    simp only [List.getElem_map] at this ⊢
-    exact fun e => this e.symm
+    obtain ⟨j, hj, hje, hlast⟩ := demanded_of_keys _ (fun b => b.names.map (posOf (headerProps (selectWriters cfg m)))) h2 b hb
+    exact ⟨j, hj, by rw [hje]; exact ha, by rw [hje]; exact hn, hlast⟩
 
 end PlyClaim
 end PolyVerif
